@@ -443,6 +443,10 @@ def _py_graham(n, pop1, pop2):
 _THIN_TABLES = {}
 
 
+class _Unrecognised(Exception):
+    """a source construct this harness reads itself no longer has the expected form: a broken tie, not an infrastructure error"""
+
+
 def _thin_tables():
     """the delta tables and fill_data calls of _thin.cpp, parsed from the staged source"""
     if not _THIN_TABLES:
@@ -452,7 +456,7 @@ def _thin_tables():
                 for m in re.finditer(r'const npy_intp (\w+)\[\] = \{([^}]*)\};', src)}
         calls = re.findall(r'fill_data\(array, elems\[\d\],\s*(?:true|false), (\w+), (\w+)\);', src)
         if len(calls) != 8 or not all(a in tabs and b in tabs for a, b in calls):
-            raise core.Infra('_thin.cpp: delta tables / fill_data calls not recognised')
+            raise _Unrecognised('_thin.cpp: delta tables / fill_data calls not recognised')
         _THIN_TABLES['elems'] = [(tabs[a], tabs[b]) for a, b in calls]
     return _THIN_TABLES['elems']
 
@@ -522,7 +526,11 @@ def _model2_line_and_direct(case):
 
 
 def _eval_model2(case):
-    line, acc, term, extra = _model2_line_and_direct(case)
+    try:
+        line, acc, term, extra = _model2_line_and_direct(case)
+    except _Unrecognised as e:
+        return dict(findings=[dict(kind='model', key='bounds-model2:' + case['which'] + ':source-not-recognised', detail=dict(why=str(e)))],
+                    nontrivial=False, sig=None, n=0, tags=dict(kind='model2', which=case['which'], ok='?', domain=case.get('domain', True)))
     drv = core.drive([line])[0]
     if acc is None:       # the direct evaluation returned the complete expected answer (accesses that are positions)
         want, acc = dict(extra), [None] * int(extra['n'])
